@@ -195,7 +195,12 @@ func mutexOp(kind string, acquire bool) builtinModel {
 		x.atomicEvent(st, kind+" "+name, nil, nil)
 		if acquire {
 			st.locks = append(st.locks, kind+" "+name)
+			x.havocGuarded(st, site)
+			x.lockInvariant(st, fr, site, true)
 		} else {
+			if kind == "unlock" {
+				x.lockInvariant(st, fr, site, false)
+			}
 			want := strings.TrimPrefix(kind, "un")
 			if kind == "runlock" {
 				want = "rlock"
@@ -208,6 +213,73 @@ func mutexOp(kind string, acquire bool) builtinModel {
 			}
 		}
 		kn(st, nil)
+	}
+}
+
+// havocGuarded: thread-modular reading of a mutex: whatever other threads did to the fields
+// declared "guarded_by <mu>" becomes visible when the lock is acquired (the fields of ALL objects of
+// the type are forgotten - an over-approximation).
+func (x *Exec) havocGuarded(st *State, site ssa.Instruction) {
+	ci, ok := site.(ssa.CallInstruction)
+	if !ok || len(ci.Common().Args) == 0 {
+		return
+	}
+	fa, ok := ci.Common().Args[0].(*ssa.FieldAddr)
+	if !ok {
+		return
+	}
+	stt := deref(fa.X.Type())
+	sst, ok := stt.Underlying().(*types.Struct)
+	if !ok {
+		return
+	}
+	mu := sst.Field(fa.Field).Name()
+	tname := namedStructKey(stt)
+	for _, fd := range x.cs.Fields {
+		if fd.Kind != "guarded_by" || fd.Pkg+"."+fd.Type != tname {
+			continue
+		}
+		if f := strings.Fields(fd.Arg); len(f) == 0 || f[0] != mu {
+			continue
+		}
+		for _, k := range x.modifiesKeys(st, fd.Pkg, fd.Type+"."+fd.Field) {
+			if _, ok := st.sorts[k.key]; !ok {
+				st.sorts[k.key] = k.sort
+			}
+			st.havocKey(k.key)
+		}
+	}
+}
+
+// lockInvariant: "struct T lockinv mu e" - e holds of the object whenever mu is free: assumed
+// when the lock is acquired, an obligation when the write lock is released.
+func (x *Exec) lockInvariant(st *State, fr *Frame, site ssa.Instruction, acquire bool) {
+	ci, ok := site.(ssa.CallInstruction)
+	if !ok || len(ci.Common().Args) == 0 {
+		return
+	}
+	fa, ok := ci.Common().Args[0].(*ssa.FieldAddr)
+	if !ok {
+		return
+	}
+	stt := deref(fa.X.Type())
+	sst, ok := stt.Underlying().(*types.Struct)
+	if !ok {
+		return
+	}
+	mu := sst.Field(fa.Field).Name()
+	tname := namedStructKey(stt)
+	for _, inv := range x.cs.Invs {
+		if inv.Lock != mu || inv.Type != tname {
+			continue
+		}
+		self := x.operand(st, fr, fa.X)
+		env := &CEnv{x: x, st: st, vars: map[string]*Val{"self": self}, pkg: inv.Pkg}
+		if acquire {
+			st.assume(env.hyp(inv.Cl))
+		} else {
+			x.emit(st, "lockinv:"+sst.Field(fa.Field).Name()+"."+inv.Cl.Label, "lockinv", env.goal(inv.Cl), "lock invariant of "+inv.Type+"."+mu+" holds when the lock is released")
+		}
 	}
 }
 
@@ -318,9 +390,41 @@ func (x *Exec) lookup(st *State, fr *Frame, in *ssa.Lookup) bool {
 	return true
 }
 
+// mapValuesNonNil: the map value flows (in this function) from a load of a field declared
+// "field T.f mapvalues nonnil": an invariant on the map content - every update through the field
+// stores a non-nil value (obligation), every value read from it is non-nil (assumed).
+func (x *Exec) mapValuesNonNil(v ssa.Value) bool {
+	for {
+		switch w := v.(type) {
+		case *ssa.Range:
+			v = w.X
+			continue
+		case *ssa.UnOp:
+			fa, ok := w.X.(*ssa.FieldAddr)
+			if !ok {
+				return false
+			}
+			stt := deref(fa.X.Type())
+			sst, ok := stt.Underlying().(*types.Struct)
+			if !ok {
+				return false
+			}
+			for _, fd := range x.cs.Fields {
+				if fd.Kind == "mapvalues" && strings.TrimSpace(fd.Arg) == "nonnil" && fd.Pkg+"."+fd.Type == namedStructKey(stt) && fd.Field == sst.Field(fa.Field).Name() {
+					return true
+				}
+			}
+		}
+		return false
+	}
+}
+
 func (x *Exec) mapUpdate(st *State, fr *Frame, in *ssa.MapUpdate) bool {
 	mv := x.operand(st, fr, in.Map)
 	x.fault(st, fr, in, "nil", not(isNilTm(mv)))
+	if x.mapValuesNonNil(in.Map) {
+		x.fault(st, fr, in, "mapvalue", not(isNilTm(x.operand(st, fr, in.Value))))
+	}
 	x.atomicEvent(st, "mapupdate "+describe(in.Map), []*Val{mv, x.operand(st, fr, in.Key), x.operand(st, fr, in.Value)}, nil)
 	return true
 }
@@ -478,9 +582,19 @@ func (x *Exec) nextStmt(st *State, fr *Frame, in *ssa.Next, next func(*State)) {
 	}
 	tt := in.Type().(*types.Tuple)
 	ok := st.freshVal("next.ok", types.Typ[types.Bool])
-	k := st.freshVal("next.key", tt.At(1).Type())
-	v := st.freshVal("next.val", tt.At(2).Type())
+	// a blank key or value has the invalid type in go/ssa: stand-in int
+	elemT := func(t types.Type) types.Type {
+		if b, isBasic := t.(*types.Basic); isBasic && b.Kind() == types.Invalid {
+			return types.Typ[types.Int]
+		}
+		return t
+	}
+	k := st.freshVal("next.key", elemT(tt.At(1).Type()))
+	v := st.freshVal("next.val", elemT(tt.At(2).Type()))
 	it := x.operand(st, fr, in.Iter)
+	if x.mapValuesNonNil(in.Iter) {
+		st.assume(tm(SBool, "(=> %s %s)", ok.S.S, not(isNilTm(v)).S))
+	}
 	x.atomicEvent(st, "mapnext", []*Val{it}, []*Val{ok, k, v})
 	x.setVal(st, fr, in, &Val{T: in.Type(), K: KTuple, Fs: []*Val{ok, k, v}})
 	next(st)
